@@ -116,8 +116,8 @@ void GridGlobal::recomputeTensorRefs(const MultiIndexSet &work){
 }
 
 void GridGlobal::makeGrid(int cnum_dimensions, int cnum_outputs, int depth, TypeDepth type, TypeOneDRule crule, const std::vector<int> &anisotropic_weights, double calpha, double cbeta, const char* custom_filename, const std::vector<int> &level_limits){
-    if (crule == rule_customtabulated){
-        custom.read(custom_filename);
+    if ((crule == rule_customtabulated) && (custom_filename != nullptr)){
+        custom.read(custom_filename); // updateGrid() passes no filename, the table that is already loaded is kept
     }
 
     setTensors(selectTensors((size_t) cnum_dimensions, depth, type, anisotropic_weights, crule, level_limits),
